@@ -181,21 +181,18 @@ PROPERTIES = {
                        "(bit-vector lemma per radix and remaining-bit count), the sticky contribution of the digits after it (non-zero because the fraction is trimmed), "
                        "the odd-accumulator tie case and the final range check; and the four generic INTEGER digit loops dec / bin / oct / hex _str_int_to_bin with unchecked_hex_digit (unit digitsint, generic "
                        "over the result type, R20): value of the digits modulo 2^W with the exact overflow flag, including the more-digits-than-bits truncation "
-                       "path that the bounded harnesses never reach for decimal; and the tokeniser parse_bounds (unit tokeniser, R21): for EVERY byte string and radix it "
-                       "never panics (all slice bounds proved) and what it returns consists of valid digits of the radix with the leading zeros of the integer part "
-                       "trimmed and the trailing zeros of the fraction trimmed - the facts the recombination layer and dec_str_frac_to_bin rely on.  (2) BOUNDED, Kani: the grammar accepted by the tokeniser (which strings are errors, "
-                       "which sign / point positions are accepted) - which layer (1) assumes through an "
-                       "uninterpreted function - and everything else run for real in from_str_u8 / "
+                       "path that the bounded harnesses never reach for decimal; and the tokeniser parse_bounds (unit tokeniser, R21) against the DECLARATIVE literal grammar of specs/grammar.rs "
+                       "(literal := [sign] digit* [. digit*] with at least one digit; the first offending byte decides the error): for EVERY byte string and radix it "
+                       "never panics (all slice bounds proved), returns Err with exactly the grammar's error kind (InvalidDigit / TooManyPoints / NoDigits) for the strings outside "
+                       "the grammar, and otherwise the sign, the integer digits with leading zeros trimmed and the fraction digits with trailing zeros trimmed; the "
+                       "contracts of from_str_uN / from_str_iN in unit parsetop are therefore END TO END: byte string -> error kind, or wrapped value and overflow flag of the correctly rounded literal.  (2) BOUNDED, Kani (an independent cross-check of layer (1), and the only decision for the policy forms): the whole parser run for real in from_str_u8 / "
                        "from_str_i8 on EVERY byte string of at most 9 bytes (radix 2, 8, 16) resp. 6 bytes quick / 7 bytes thorough (radix 10), all nine 8-bit "
                        "layouts symbolic, against the exactly rounded value of the literal (ties to even), the overflow flag, the wrapped value and the error "
                        "classes of a grammar written independently of the tokeniser; complete within the bound, loops closed by unwinding assertions; "
                        "the policy forms of the public API (plain: overflow error; saturating: the bound on the literal's side; wrapping: the wrapped value) against the "
                        "overflowing form on every ASCII string of at most 4 bytes, I4F4 / U4F4, radix 10 / 16 (8 in thorough)",
-        "bounded_parts": ["policy forms (impl_from_str_traits!: closures, str::starts_with): Kani on I4F4 / U4F4, strings of at most 4 bytes",
-                          "the grammar of the tokeniser (error classes, accepted sign / point positions): decided by Kani on "
-                          "the 8-bit instantiation only, string length <= 9 (6 / 7 for decimal); in the Verus layer it is an assumed contract over the uninterpreted function parse_spec"],
-        "assumptions": ["unit parsetop: the grammar part of parse_bounds (which strings are accepted, where the sign and the point are: uninterpreted parse_spec) is an assumed contract (external_body); "
-                        "the contracts of the four integer digit loops, of the four fraction parsers and the digit facts of parse_bounds are declared there (external_body, hand-declared signatures generic over the "
+        "bounded_parts": ["policy forms (impl_from_str_traits!: closures, str::starts_with, str::as_bytes): Kani on I4F4 / U4F4, strings of at most 4 bytes - the only part of the parser not under a Verus contract"],
+        "assumptions": ["unit parsetop: the contracts of the four integer digit loops, of the four fraction parsers and of parse_bounds are declared there (external_body, hand-declared signatures generic over the "
                         "result type) with the statements proved in units digitsint / decfrac / powfrac / tokeniser; "
                         "unit decfrac: the contracts of DecToBin::dec_to_bin / parse_is_short and of dec_str_int_to_bin are assumed with the statements proved in units decbin / decbin128 / digitsint; "
                         "IntHelper::MSB is a literal tied to the source text by //@require_source",
